@@ -45,6 +45,10 @@ type Violation struct {
 	Detail  string `json:"detail"`
 	// Sig is the structural signature matched against known_findings.json.
 	Sig map[string]string `json:"sig,omitempty"`
+	// Nondet: part of the run was ordered by the Go runtime, not by the seed (a client released from a synchronisation
+	// primitive ran beside the current one up to its next yield point): a replay has to show the same violation class,
+	// its event log may differ.
+	Nondet bool `json:"nondet,omitempty"`
 }
 
 func (v *Violation) Class() string { return v.Oracle + "/" + v.OpKind }
@@ -66,6 +70,7 @@ type X struct {
 	SimFrom  int64  // simulated instants touched (unix seconds), 0 if none
 	SimTo    int64
 	Viol     *Violation
+	Nondet   bool
 }
 
 func newX(t *testing.T, keep bool) *X {
